@@ -1273,7 +1273,7 @@ def run(ctx: Ctx):
     run_graph(ctx, "rtb", core + extra, depth)
     if q:
         run_trie(ctx, "sop", core, 5)
-        run_trie(ctx, "sop", rng.sample(core, 6), 6)
+        run_trie(ctx, "sop", rng.sample(core, 4), 6)
         run_trie(ctx, "rtb", core, 4)
         run_trie(ctx, "rtb", rng.sample(core, 4), 5)
     else:
@@ -1284,8 +1284,8 @@ def run(ctx: Ctx):
         run_trie(ctx, "sop", rng.sample(core, 1), 8)
         run_trie(ctx, "rtb", core, 5)
         run_trie(ctx, "rtb", sh[:8], 6)
-    run_num_rtb(ctx, ctx.pick(1200, 3000), 40 if q else 150)
-    run_num_sop(ctx, ctx.pick(1200, 3000), 40 if q else 150)
+    run_num_rtb(ctx, ctx.pick(1000, 3000), 40 if q else 150)
+    run_num_sop(ctx, ctx.pick(1000, 3000), 40 if q else 150)
     run_drv_optimize(ctx, ctx.pick(600, 5000))
     run_drv_optimize_real(ctx, ctx.pick(30, 200))
     run_drv_mpc(ctx, ctx.pick(300, 2000), ctx.pick(15, 100))
